@@ -87,8 +87,9 @@ def _signature(sig, rep):
     if isinstance(op, dict) and op.get("a"):
         sig["op"] = op.get("a")
         if op.get("a") == "list":
-            sig["clause"] = "ListingsExact"
             sig["what"] = op.get("what")
+            if sig.get("clause") == "RetOK":
+                sig["clause"] = "ListingsExact"
     if oret.get("err"):
         sig["raised"] = oret["err"]
     if sig.get("clause") == "StateOK" and exp and ost:
@@ -331,11 +332,11 @@ def run(tier: str, seed: int) -> int:
         ("mstdpet+stdp-nametable", consts(2, t1="mstdpet", am=(1,), prune=False, depth=4), ["NoRedirect"], None),
     ]
     gens = [
-        ("g-stdp-neuron", consts(1, depth=4 if quick else 6), 9000 if quick else 15000),
+        ("g-stdp-neuron", consts(1, depth=4 if quick else 6), 3500 if quick else 15000),
         ("g-stdp-conn-diffhp", consts(1, share="conn", samehp=False, am=(3,), depth=4 if quick else 5),
-         3000 if quick else None),
-        ("g-stdp+stdp", consts(2, am=(1,), depth=3 if quick else 5), 3500 if quick else 18000),
-        ("g-mstdpet+stdp", consts(2, t1="mstdpet", am=(1, 5), depth=3 if quick else 5), 3500 if quick else 18000),
+         2000 if quick else None),
+        ("g-stdp+stdp", consts(2, am=(1,), depth=3 if quick else 5), 3000 if quick else 18000),
+        ("g-mstdpet+stdp", consts(2, t1="mstdpet", am=(1, 5), depth=3 if quick else 5), 3000 if quick else 18000),
     ]
     ex = ThreadPoolExecutor(max_workers=5)
     genf = [ex.submit(run_tlc, c, ["Emit"], 1) for _, c, _ in gens]     # first: the replays wait for them
@@ -349,7 +350,7 @@ def run(tier: str, seed: int) -> int:
         replay_graph(chk, g, budget=budget, rng=rng)
 
     # ---- B
-    ntr = 120 if quick else 1000
+    ntr = 100 if quick else 1000
     traces = []
     cfgs = [
         ({"ttype": ["stdp"], "share": "neuron", "samehp": True, "d14": False}, (1, 2, 3, 4)),
